@@ -102,6 +102,20 @@ type Opts struct {
 	Batch int    `json:"batch"`
 	Zstd  int    `json:"zstd"`
 	Salt  string `json:"salt,omitempty"` // non-empty: scrub=full with this salt
+	// ScrubCfg > 0 (with Salt): the custom scrub configuration ScrubConfigs[ScrubCfg-1]
+	ScrubCfg int `json:"scrub_cfg,omitempty"`
+}
+
+// ScrubConfigs are custom scrub configuration files. Neighbours (1,2), (3,4), (5,6) differ in one
+// respect each: the ORDER of two overlapping value-shape rules (the first match decides the
+// pseudonym format), one pattern, one preserved key.
+var ScrubConfigs = []string{
+	"[[classifier.value_shapes]]\nname = \"host\"\npattern = \"(?i)^[a-z ]+$\"\n\n[[classifier.value_shapes]]\nname = \"email\"\npattern = \"(?i)^[a-z]+$\"\n",
+	"[[classifier.value_shapes]]\nname = \"email\"\npattern = \"(?i)^[a-z]+$\"\n\n[[classifier.value_shapes]]\nname = \"host\"\npattern = \"(?i)^[a-z ]+$\"\n",
+	"[[classifier.value_shapes]]\nname = \"uuid\"\npattern = \"^plain$\"\n",
+	"[[classifier.value_shapes]]\nname = \"uuid\"\npattern = \"^plain.$\"\n",
+	"[classifier]\npreserve_keys = [\"objectid\", \"name\"]\n",
+	"[classifier]\npreserve_keys = [\"name\", \"n\"]\n",
 }
 
 var graphNames = []string{"default", "g one", "grüße/π.x", "a.b", "UPPER lower", "x%2Fy", "..dots..", "名前"}
@@ -377,6 +391,9 @@ func DumpOptions(dir string, o Opts) retriever.DumpOptions {
 	d.ProgressInterval = 0
 	if o.Salt != "" {
 		d.Scrub, d.Salt = retriever.ScrubFull, o.Salt
+		if o.ScrubCfg > 0 {
+			d.ScrubConfig = strings.NewReader(ScrubConfigs[(o.ScrubCfg-1)%len(ScrubConfigs)])
+		}
 	}
 	return d
 }
